@@ -22,7 +22,8 @@ gvars == <<vars, h, kind, minLen>>
 ASSUME EmitReset
 
 KindOf == IF memRoot = 2 THEN "reduced"
-          ELSE IF \E c \in stored : c.kind = "droot" THEN "derived" ELSE "signed"
+          ELSE IF \E c \in stored : c.kind = "droot" THEN "derived"
+          ELSE IF Cardinality(stored) = 2 THEN "grown" ELSE "signed"
 
 GInit == /\ Init /\ h = <<>> /\ kind = KindOf
          /\ minLen \in 0..(Bounds[focus].MaxAcl + Bounds[focus].MaxParents)
@@ -35,13 +36,13 @@ GNext == /\ \/ \E e \in Events : AclAppend(e) /\ h' = Append(h, [a |-> "acl", e 
 
 GSpec == GInit /\ [][GNext]_gvars
 
-DCode(d) == d.nf + 3 * d.pos + 7 * d.cite + 11 * d.fc
+DCode(d) == d.nf + 3 * d.pos + 7 * d.cite + 11 * d.fc + (IF d.fa = "S" THEN 5 ELSE 0)
             + (IF d.after = "child" THEN 0 ELSE 13)
             + (CASE d.au = "S" -> 0 [] d.au = "W" -> 17 [] OTHER -> 29)
             + (CASE d.pk = "heads" -> 0 [] d.pk = "fork" -> 31 [] d.pk = "redundant" -> 37
                  [] d.pk = "unknown" -> 41 [] OTHER -> 43)
             + (CASE d.m = "none" -> 0 [] d.m = "bytes" -> 47 [] d.m = "bytesReid" -> 53 [] d.m = "id" -> 59
-                 [] d.m = "idDup" -> 61 [] d.m = "swap" -> 67 [] OTHER -> 71)
+                 [] d.m = "idDup" -> 61 [] d.m = "swap" -> 67 [] d.m = "twin" -> 73 [] OTHER -> 71)
 
 SampleMod == IF focus = "bytes" THEN SampleBytes ELSE IF focus = "acl" THEN SampleAcl ELSE 1
 Kept(d) == SampleMod = 1 \/ (DCode(d) + Salt + Len(h)) % SampleMod = 0
@@ -49,7 +50,7 @@ Kept(d) == SampleMod = 1 \/ (DCode(d) + Salt + Len(h)) % SampleMod = 0
 SeqOfSet(S) == LET RECURSIVE F(_) F(T) == IF T = {} THEN <<>> ELSE LET x == Max(T) IN Append(F(T \ {x}), x) IN F(S)
 
 Member(c) == [id |-> c.id, kind |-> c.kind, au |-> c.au, named |-> c.named, cite |-> c.cite,
-              par |-> SeqOfSet(c.par), snap |-> c.snap, cidOk |-> c.cidOk, sigOk |-> c.sigOk]
+              par |-> SeqOfSet(c.par), snap |-> c.snap, cidOk |-> c.cidOk, sigOk |-> c.sigOk, tw |-> c.tw]
 
 CaseOf(d) ==
     LET b == BatchOf(d)
